@@ -88,16 +88,6 @@ open MlModel.Iter
 
 /-! ## vocabulary of `C08_assign_batched_aligned_partial` -/
 
-/-- the (normalised) results of the calls of one operator, record by record (`Ref.semCall`, the
-function's state threaded), up to the first error — a failing read of the source or a failing call -/
-def callOuts (op : Op) : Nat → List (Ev Val) → List (Ev (List Val))
-  | _, [] => []
-  | _, .error e :: _ => [.error e]
-  | s, .ok r :: rest =>
-    match Ref.semCall op s r with
-    | (.ok v, s') => .ok (normOuts op v) :: callOuts op s' rest
-    | (.error e, _) => [.error e]
-
 /-- **aligned**: every call result is a batch of `nc` columns (`list` / `tuple`) of exactly `t` rows; the
 LAST one of a stream that ends normally may have fewer (`1..t`); the error the stream breaks off with
 (if any) ends the run (with skipping on: it is not a skippable one — a failing call that is skipped in
@@ -108,30 +98,32 @@ def AlignedCalls (ignore : Bool) (t nc : Nat) : List (Ev (List Val)) → Prop
   | [.ok cols] => ∃ r, 0 < r ∧ r ≤ t ∧ Rebatch.Rect nc r (Ref.asBatch cols)
   | .ok cols :: y :: ys => Rebatch.Rect nc t (Ref.asBatch cols) ∧ AlignedCalls ignore t nc (y :: ys)
 
-/-- Boolean form (for the examples) -/
-def alignedCallsB (ignore : Bool) (t nc : Nat) : List (Ev (List Val)) → Bool
-  | [] => true
-  | .error e :: _ => terminal ignore e
-  | [.ok cols] =>
-    decide (0 < Rebatch.nrows (Ref.asBatch cols) ∧ Rebatch.nrows (Ref.asBatch cols) ≤ t ∧
-      Rebatch.Rect nc (Rebatch.nrows (Ref.asBatch cols)) (Ref.asBatch cols))
-  | .ok cols :: y :: ys => decide (Rebatch.Rect nc t (Ref.asBatch cols)) && alignedCallsB ignore t nc (y :: ys)
+theorem fullColsB_sound {nc r : Nat} {cols : List Val} (h : Ref.fullColsB nc r cols = true) :
+    Rebatch.Rect nc r (Ref.asBatch cols) := by
+  simp only [Ref.fullColsB, Bool.and_eq_true, beq_iff_eq, List.all_eq_true] at h
+  refine ⟨by simpa [Ref.asBatch] using h.1, ?_⟩
+  intro c hc
+  simp only [Ref.asBatch, List.mem_map] at hc
+  obtain ⟨v, hv, rfl⟩ := hc
+  have := h.2 v hv
+  cases v <;> simp_all [Ref.asCol]
 
+/-- the Boolean form in the model (`Ref.alignedCallsB`, evaluated by the driver and the examples) is sound -/
 theorem alignedCallsB_sound (ignore : Bool) (t nc : Nat) (l : List (Ev (List Val)))
-    (h : alignedCallsB ignore t nc l = true) : AlignedCalls ignore t nc l := by
+    (h : Ref.alignedCallsB ignore t nc l = true) : AlignedCalls ignore t nc l := by
   induction l with
   | nil => trivial
   | cons ev rest ih =>
     cases ev with
-    | error e => simpa [alignedCallsB, AlignedCalls] using h
+    | error e => simpa [Ref.alignedCallsB, AlignedCalls] using h
     | ok cols =>
       cases rest with
       | nil =>
-        simp only [alignedCallsB, decide_eq_true_eq] at h
-        exact ⟨_, h.1, h.2.1, h.2.2⟩
+        simp only [Ref.alignedCallsB, Bool.and_eq_true, decide_eq_true_eq] at h
+        exact ⟨_, h.1.1, h.1.2, fullColsB_sound h.2⟩
       | cons y ys =>
-        simp only [alignedCallsB, Bool.and_eq_true, decide_eq_true_eq] at h
-        exact ⟨h.1, ih h.2⟩
+        simp only [Ref.alignedCallsB, Bool.and_eq_true] at h
+        exact ⟨fullColsB_sound h.1, ih h.2⟩
 
 /-! ## the `rebatched_args` generator on an empty buffer -/
 
@@ -182,14 +174,14 @@ theorem rebatchGen_init_short_last {t nc r : Nat} (ht : 0 < t) (hnc : 0 < nc) (h
 
 /-! ## `processed_with_inputs` over the re-batcher on an aligned stream -/
 
-theorem callOuts_eq_nil {op : Op} {s : Nat} {l : List (Ev Val)} (h : callOuts op s l = []) : l = [] := by
+theorem callOuts_eq_nil {op : Op} {s : Nat} {l : List (Ev Val)} (h : Ref.callOuts op s l = []) : l = [] := by
   cases l with
   | nil => rfl
   | cons ev rest =>
     cases ev with
-    | error e => simp [callOuts] at h
+    | error e => simp [Ref.callOuts] at h
     | ok r =>
-      simp only [callOuts] at h
+      simp only [Ref.callOuts] at h
       split at h <;> simp at h
 
 /-- nothing but skippable failing reads is left: the operator's inner iterator has no more events -/
@@ -218,7 +210,7 @@ theorem aligned_core (ignore : Bool) (op : Op) (t : Nat) (ht : 0 < t) (hnc : 0 <
     (hg : ∀ r v, Ref.semWrite op r v = (g (normOuts op v, r)).map some)
     (s : Nat) (pre suf : List (Ev Val)) (E : Nat)
     (hE : (pre ++ cutTerminal ignore suf).length < E)
-    (hal : AlignedCalls ignore t op.outKeys.length (callOuts op s (Ref.skipNT ignore suf))) :
+    (hal : AlignedCalls ignore t op.outKeys.length (Ref.callOuts op s (Ref.skipNT ignore suf))) :
     (Impl.aCut ignore (Impl.aMap g
         (Impl.pwi ignore (pre ++ cutTerminal ignore suf) (Impl.countOk pre)
           (Impl.rebatchGen t op.outKeys.length (Rebatch.St.init op.outKeys.length)
@@ -240,7 +232,7 @@ theorem aligned_core (ignore : Bool) (op : Op) (t : Nat) (ht : 0 < t) (hnc : 0 <
         have hl' : (pre ++ [Except.error e]).length = pre.length + 1 := by simp
         have hE' : ((pre ++ [Except.error e]) ++ cutTerminal ignore rest).length < E := by
           simpa [cutTerminal, hterm] using hE
-        have hal' : AlignedCalls ignore t op.outKeys.length (callOuts op s (Ref.skipNT ignore rest)) := by
+        have hal' : AlignedCalls ignore t op.outKeys.length (Ref.callOuts op s (Ref.skipNT ignore rest)) := by
           simpa [Ref.skipNT, hterm] using hal
         have ih' := ih s (pre ++ [Except.error e]) hE' hal'
         rw [hc, hl'] at ih'
@@ -262,17 +254,17 @@ theorem aligned_core (ignore : Bool) (op : Op) (t : Nat) (ht : 0 < t) (hnc : 0 <
       | error e =>
         have h1 : inner1 op s r = (.error e, s') := by simp [inner1, hs]
         have hterm : terminal ignore e = true := by
-          simpa [Ref.skipNT, callOuts, hs, AlignedCalls] using hal
+          simpa [Ref.skipNT, Ref.callOuts, hs, AlignedCalls] using hal
         simp [cutTerminal, innerEvsT, h1, rebatchGen_error, Impl.pwi, not_skip_of_terminal hterm,
           Impl.aMap, Impl.aCut, Ref.skipNT, Ref.opEvents, hs, hterm]
       | ok v =>
         have h1 : inner1 op s r = (.ok (normOuts op v), s') := by simp [inner1, hs]
         have hw := hg r v
-        have hco : callOuts op s (Ref.skipNT ignore (Except.ok r :: rest))
-            = .ok (normOuts op v) :: callOuts op s' (Ref.skipNT ignore rest) := by
-          simp [Ref.skipNT, callOuts, hs]
+        have hco : Ref.callOuts op s (Ref.skipNT ignore (Except.ok r :: rest))
+            = .ok (normOuts op v) :: Ref.callOuts op s' (Ref.skipNT ignore rest) := by
+          simp [Ref.skipNT, Ref.callOuts, hs]
         rw [hco] at hal
-        cases hrest : callOuts op s' (Ref.skipNT ignore rest) with
+        cases hrest : Ref.callOuts op s' (Ref.skipNT ignore rest) with
         | nil =>
           -- the last call of the stream
           have hsk : Ref.skipNT ignore rest = [] := callOuts_eq_nil hrest
@@ -355,7 +347,7 @@ structure AssignAlignedOK (ignore : Bool) (op : Op) (src : List (Ev Val)) : Prop
   selfAlone : SelfAlone op
   /-- every call result is a batch of exactly `batch_size` rows, the last one `1..batch_size`; no failing
   call is skipped -/
-  aligned : AlignedCalls ignore op.batch op.outKeys.length (callOuts op op.s0 (Ref.skipNT ignore src))
+  aligned : AlignedCalls ignore op.batch op.outKeys.length (Ref.callOuts op op.s0 (Ref.skipNT ignore src))
 
 theorem iterate_batchOnly (skip : Bool) (op : Op) (hfb : op.fnBatch = 0) (hb : op.batch ≠ 0)
     (k e : Nat) (src : List (Ev Val)) :
@@ -397,5 +389,29 @@ theorem topEventsA_spec (ignore : Bool) (ops : List Op) (src : List (Ev Val)) (h
       · exact opIterate_assign_aligned ignore op src hop
     simp only [Impl.topEvents, Ref.chainEventsS, hev]
     exact ih _ hrest
+
+/-! ## the Boolean side conditions the driver evaluates imply the hypotheses of the theorems -/
+
+theorem selfAloneB_sound {op : Op} (h : Ref.selfAloneB op = true) : SelfAlone op := by
+  intro k k' rest hk
+  simpa [Ref.selfAloneB, hk] using h
+
+theorem assignAlignedOKB_sound (ignore : Bool) (op : Op) (src : List (Ev Val))
+    (h : Ref.assignAlignedOKB ignore op src = true) : AssignAlignedOK ignore op src := by
+  simp only [Ref.assignAlignedOKB, Bool.and_eq_true, beq_iff_eq, decide_eq_true_eq] at h
+  obtain ⟨⟨⟨⟨⟨hk, hfb⟩, hb⟩, hn⟩, hs⟩, hal⟩ := h
+  exact ⟨hk, hfb, hb, hn, selfAloneB_sound hs, alignedCallsB_sound _ _ _ _ hal⟩
+
+/-- `Ref.runOKAB` (what the driver reports as `refa_ok`) and "no predicate returns a tuple" give `RunOKA` -/
+theorem runOKAB_sound (ignore : Bool) (ops : List Op) (hpred : ∀ op ∈ ops, op.kind = .filter → NoTuple op)
+    (src : List (Ev Val)) (h : Ref.runOKAB ignore ops src = true) : RunOKA ignore ops src := by
+  induction ops generalizing src with
+  | nil => trivial
+  | cons op ops ih =>
+    simp only [Ref.runOKAB, Bool.and_eq_true, Bool.or_eq_true, beq_iff_eq] at h
+    refine ⟨?_, ih (fun o ho => hpred o (List.mem_cons_of_mem _ ho)) _ h.2⟩
+    rcases h.1 with ⟨⟨hfb, hb⟩, hs⟩ | ha
+    · exact Or.inl ⟨⟨hfb, hb⟩, selfAloneB_sound hs, hpred op (List.mem_cons_self ..)⟩
+    · exact Or.inr (assignAlignedOKB_sound ignore op src ha)
 
 end MlModel.Pipe
